@@ -49,6 +49,7 @@ struct Totals {
     max_pending: AtomicU64,
     multi_level: AtomicU64,
     max_stored_overhead: AtomicU64,
+    tree_nodes: AtomicU64,
 }
 
 /// AES block padding (<= 16) plus brotli's framing of incompressible input (a few bytes per meta-block).
@@ -140,7 +141,7 @@ fn one_input(run: &Run, len: usize, pat: usize, full_orders_up_to: usize, tot: &
     let dm_addr = *dm.name();
     let modes: &[(bool, bool)] = if lifo_too { &[(false, false), (true, false), (false, true), (true, true)] } else { &[(false, false), (true, false)] };
     for &(public, lifo) in modes {
-        let (execs, _) = explore_seq(bound, |ch| {
+        let (execs, _, nodes) = explore_seq(bound, |ch| {
             let mut rig = ClientRig::new();
             let client = rig.client.clone();
             let (dmc, addr) = (dm_chunk.clone(), dm_addr);
@@ -183,11 +184,12 @@ fn one_input(run: &Run, len: usize, pat: usize, full_orders_up_to: usize, tot: &
             }
         });
         tot.executions.fetch_add(execs, Ordering::Relaxed);
+        tot.tree_nodes.fetch_add(nodes, Ordering::Relaxed);
     }
 }
 
 fn sweep(run: &Run, lengths: Vec<usize>, full_orders_up_to: usize) -> Totals {
-    let tot = Totals { executions: AtomicU64::new(0), max_pending: AtomicU64::new(0), multi_level: AtomicU64::new(0), max_stored_overhead: AtomicU64::new(0) };
+    let tot = Totals { executions: AtomicU64::new(0), max_pending: AtomicU64::new(0), multi_level: AtomicU64::new(0), max_stored_overhead: AtomicU64::new(0), tree_nodes: AtomicU64::new(0) };
     let jobs: Vec<(usize, usize)> = lengths.iter().flat_map(|l| (0..3).map(move |p| (*l, p))).collect();
     let next = AtomicUsize::new(0);
     std::thread::scope(|sc| {
@@ -252,9 +254,11 @@ pub fn main(tier: Option<&str>) {
     let mut lengths: Vec<usize> = (0..=8).collect();
     lengths.extend([3 * max - 2, 3 * max - 1, 3 * max, 3 * max + 1, 3 * max + 2]);
     let t = sweep(&run, lengths, 6);
+    // states = nodes of the explored answer-order trees (distinct prefixes of completion orders), over all inputs
     run.count("schedules", t.executions.load(Ordering::Relaxed));
-    run.count("states", 1);
-    run.count("transitions", t.executions.load(Ordering::Relaxed));
+    run.count("states", t.tree_nodes.load(Ordering::Relaxed));
+    run.count("transitions", t.tree_nodes.load(Ordering::Relaxed));
+    run.count("traces_validated_against_impl", t.executions.load(Ordering::Relaxed));
     run.extra("shipped_build", json!({"max_chunk_size": max, "max_stored_overhead": t.max_stored_overhead.load(Ordering::Relaxed)}));
     run.sample(json!({"len": 3 * max + 1, "pattern": "xorshift", "max_chunk_size": max}));
     // the small-chunk build
@@ -274,7 +278,9 @@ pub fn main(tier: Option<&str>) {
     };
     println!("[C14] small-chunk build: {summary}");
     run.count("schedules", summary["executions"].as_u64().unwrap_or(0));
-    run.count("transitions", summary["executions"].as_u64().unwrap_or(0));
+    run.count("states", summary["tree_nodes"].as_u64().unwrap_or(0));
+    run.count("transitions", summary["tree_nodes"].as_u64().unwrap_or(0));
+    run.count("traces_validated_against_impl", summary["executions"].as_u64().unwrap_or(0));
     // the subprocess's inputs are this check's cases (it reports how many were encryptable = non-trivial)
     let (inputs, nontrivial) = (summary["inputs"].as_u64().unwrap_or(0), summary["nontrivial_inputs"].as_u64().unwrap_or(0));
     for i in 0..inputs {
@@ -319,7 +325,7 @@ pub fn main_small(tier: Option<&str>) {
     let violations = run.dump_violations();
     println!(
         "C14-SUMMARY {}",
-        json!({"max_chunk_size": max, "inputs": n_inputs, "nontrivial_inputs": n_nontrivial, "executions": t.executions.load(Ordering::Relaxed), "max_concurrently_pending": t.max_pending.load(Ordering::Relaxed),
+        json!({"max_chunk_size": max, "inputs": n_inputs, "nontrivial_inputs": n_nontrivial, "executions": t.executions.load(Ordering::Relaxed), "tree_nodes": t.tree_nodes.load(Ordering::Relaxed), "max_concurrently_pending": t.max_pending.load(Ordering::Relaxed),
                "multi_level_fetches": t.multi_level.load(Ordering::Relaxed), "max_stored_overhead": t.max_stored_overhead.load(Ordering::Relaxed), "datamap_shape_changes_at": crossings, "most_additional_level_chunks": most_additional, "violations": violations})
     );
     mc_core::remove_scratch_root();
